@@ -123,12 +123,51 @@ fn supervisor(args: Args, raw: &[String]) -> i32 {
     let _ = std::fs::remove_dir_all(&run_dir);
     let _ = std::fs::create_dir_all(&run_dir);
     let exe = std::env::current_exe().expect("current exe");
-    let status = std::process::Command::new(exe)
-        .arg("--child")
-        .arg("--crumb-dir")
-        .arg(&run_dir)
-        .args(raw)
-        .status();
+    let child = std::process::Command::new(exe).arg("--child").arg("--crumb-dir").arg(&run_dir).args(raw).spawn();
+    // While the child runs, watch its breadcrumbs: a case that stays in flight far beyond any
+    // legitimate duration (cases take milliseconds to a few seconds) means a call into the
+    // library never returned - a deadlock or an endless wait. That is a violation of the case's
+    // property (every property here implies that the calls it makes return), reported with the
+    // case as the replay; the whole-run watchdog in the child stays an infrastructure matter.
+    let stuck_limit = std::env::var("VCHECK_STUCK_SECS").ok().and_then(|s| s.parse::<u64>().ok()).unwrap_or(match args.tier {
+        Tier::Quick => 300,
+        Tier::Thorough => 900,
+    });
+    let status = match child {
+        Err(e) => Err(e),
+        Ok(mut ch) => {
+            let mut seen: std::collections::HashMap<PathBuf, (u64, Instant)> = std::collections::HashMap::new();
+            loop {
+                match ch.try_wait() {
+                    Ok(Some(st)) => break Ok(st),
+                    Ok(None) => {}
+                    Err(e) => break Err(e),
+                }
+                std::thread::sleep(std::time::Duration::from_millis(500));
+                let mut stuck: Option<serde_json::Value> = None;
+                for (path, v) in crumb::read_all_with_paths(&run_dir) {
+                    let h = core::hash_of(&v.to_string());
+                    match seen.get(&path) {
+                        Some((h0, t0)) if *h0 == h => {
+                            if t0.elapsed().as_secs() >= stuck_limit {
+                                stuck = Some(v);
+                            }
+                        }
+                        _ => {
+                            seen.insert(path, (h, Instant::now()));
+                        }
+                    }
+                }
+                if let Some(v) = stuck {
+                    let _ = ch.kill();
+                    let _ = ch.wait();
+                    let code = report_stuck(&args, &v, stuck_limit, started);
+                    let _ = std::fs::remove_dir_all(&run_dir);
+                    return code;
+                }
+            }
+        }
+    };
     let code = match status {
         Err(e) => {
             println!("INFRA: cannot start child: {}", e);
@@ -206,6 +245,39 @@ fn report_crash(args: &Args, run_dir: &Path, how: &str, started: Instant) -> i32
     1
 }
 
+fn report_stuck(args: &Args, crumb: &serde_json::Value, limit: u64, started: Instant) -> i32 {
+    let kind = crumb.get("kind").and_then(|k| k.as_str()).unwrap_or("?").to_string();
+    let case = crumb.get("case").cloned().unwrap_or(serde_json::Value::Null);
+    let sig = format!("{}/case-hangs", args.id);
+    let msg = format!(
+        "a single case (kind {}) was still running after {} s; cases of this check take milliseconds to a few seconds, so a call into the library never returned (deadlock or endless wait)",
+        kind, limit
+    );
+    if let Some(path) = &args.replay {
+        println!("VIOLATION property={} replay={}", args.id, path.display());
+        println!("  signature: {}", sig);
+        println!("  message:   {}", msg);
+        return 1;
+    }
+    let v = Violation { property: args.id.clone(), kind, signature: sig.clone(), message: msg.clone(), case };
+    let dir = args.verif_dir.join("replays").join("found").join(&args.id);
+    let _ = std::fs::create_dir_all(&dir);
+    let path = dir.join(format!("case-hangs-{:08x}.json", core::hash_of(&v.case.to_string()) as u32));
+    let _ = std::fs::write(&path, serde_json::to_string_pretty(&v).unwrap());
+    let ev = serde_json::json!({
+        "property_id": args.id, "tier": args.tier.name(), "seed": args.seed, "level": "other",
+        "coverage": {"explanation": format!("run stopped: {}", msg), "samples": [{"kind": v.kind, "case": vcore::core::truncate_json(v.case.clone())}]},
+        "wall_s": started.elapsed().as_secs_f64(), "violations": 1
+    });
+    let evdir = args.verif_dir.join("evidence");
+    let _ = std::fs::create_dir_all(&evdir);
+    let _ = std::fs::write(evdir.join(format!("{}.json", args.id)), serde_json::to_string_pretty(&ev).unwrap());
+    println!("VIOLATION property={} replay={}", args.id, path.display());
+    println!("  signature: {}", sig);
+    println!("  message:   {}", msg);
+    1
+}
+
 fn child_main(args: Args) -> i32 {
     core::install_panic_hook();
     if let Some(d) = &args.crumb_dir {
@@ -272,6 +344,7 @@ fn child_main(args: Args) -> i32 {
             }
         }
     }
+    crumb::clear();
     let Some((mut report, meta)) = props::run(&ctx) else {
         eprintln!("unknown property {}", ctx.id);
         return 2;
